@@ -81,6 +81,15 @@ Proof. exact rdd_stats_left_comb. Qed.
 Theorem C17_rdd_stats_partial : forall lo hi parts, TwoPass lo hi (rdd_stats lo hi parts) (concat parts).
 Proof. exact rdd_stats_two_pass. Qed.
 
+(* consequence: over exact arithmetic the summary itself (all five fields) does not depend on the merge order or on
+   the partitioning, only on the multiset of the data *)
+Theorem C17_merge_order_irrelevant_partial : forall lo hi (t t' : mtree R),
+  Permutation (tdata t) (tdata t') -> tdata t <> [] -> tree_stats lo hi t = tree_stats lo hi t'.
+Proof. exact merge_order_irrelevant. Qed.
+Theorem C17_partitioning_irrelevant_partial : forall lo hi parts parts',
+  Permutation (concat parts) (concat parts') -> concat parts <> [] -> rdd_stats lo hi parts = rdd_stats lo hi parts'.
+Proof. exact rdd_stats_partitioning_irrelevant. Qed.
+
 (* the single clauses, unfolded for the reader (xs non-empty; max/min need the sentinels to bound the data) *)
 Theorem C17_mean_partial : forall lo hi parts, concat parts <> [] ->
   st_mean (rdd_stats lo hi parts) = sumR (concat parts) / len (concat parts).
@@ -99,6 +108,12 @@ Proof. exact min_unfolded. Qed.
 Theorem C17_count : forall (N : NumOps) (ninf pinf : @F N) (t : mtree (@F N)),
   st_count (tree_stats ninf pinf t) = Z.of_nat (length (tdata t)).
 Proof. exact @tree_count. Qed.
+
+(* max / min involve no arithmetic: in EVERY instance (floats included) the value returned is one of the data, or the
+   sentinel -inf / +inf (no rounding can occur; that it is the greatest / least is C17_max_partial / C17_min_partial) *)
+Theorem C17_max_min_are_data : forall (N : NumOps) (ninf pinf : @F N) (t : mtree (@F N)),
+  In (st_max (tree_stats ninf pinf t)) (ninf :: tdata t) /\ In (st_min (tree_stats ninf pinf t)) (pinf :: tdata t).
+Proof. exact @tree_max_min_in_data. Qed.
 
 (* "Summaries of an empty dataset report count 0 and NaN variance instead of failing": any number of empty
    partitions, in every instance; and what the float instance (= Python) shows *)
@@ -132,6 +147,9 @@ Proof. exact cov_any_partitioning_any_order. Qed.
 (* DataFrame.cov / corr: treeAggregate(CovarianceCounter, add, merge) over the partitions of the frame *)
 Theorem C17_df_cov_partial : forall parts, TwoPassC (df_cov_helper parts) (concat parts).
 Proof. exact df_cov_two_pass. Qed.
+Theorem C17_cov_merge_order_irrelevant_partial : forall (t t' : mtree (R * R)),
+  Permutation (tdata t) (tdata t') -> tdata t <> [] -> tree_cov t = tree_cov t'.
+Proof. exact cov_merge_order_irrelevant. Qed.
 (* the value compared with is Pearson's r in its textbook form *)
 Theorem C17_corr_formula : forall ps, ps <> [] ->
   tp_corr ps = tp_cov_pop ps / (R_sqrt.sqrt (tp_var (xs_of ps)) * R_sqrt.sqrt (tp_var (ys_of ps))).
@@ -160,6 +178,11 @@ Proof.
   apply Permutation_trans with ([[]; [1; 4]] ++ [[9]]); [apply (Permutation_app_comm [[9]] [[]; [1; 4]])|].
   cbn. apply perm_swap.
 Qed.
+Example order_irrelevant_instance :
+  let t := MNode (MLeaf [9]) (MNode (MLeaf []) (MLeaf [1; 4])) in
+  let t' := MSelf (MLeaf [1]) in
+  Permutation (tdata t) (tdata (MNode (MLeaf [1; 4; 9]) (MLeaf []))) /\ tdata t <> [] /\ tdata t' = [1; 1].
+Proof. cbn. repeat split; [| congruence]. apply (Permutation_app_comm [9] [1; 4]). Qed.
 (* ... and the invariant is not trivially true: a counter with a wrong mean does not represent the data *)
 Example rep_discriminates : ~ Rep 0 0 (mkSC 2 1 0 0 0 : @sc ROps) [1; 2].
 Proof. intros [_ H _ _ _]. cbn in H. lra. Qed.
